@@ -963,3 +963,23 @@ PROPS["C17"]["claim"] += (" Since C17ObjUnmarshalUnion the two remaining machine
     "the zoo has such entries, and for them the unmarshalm cases remain the tie.")
 PROPS["C13"]["theorems"] += ["Refmt.C17ObjUnmarshal.unmarshaller_refines_target_union", "Refmt.C17ObjUnmarshal.unmarshaller_refines_target_tags"]
 PROPS["C13"]["extra_modules"] = PROPS["C13"].get("extra_modules", []) + ["RefmtProofs.Props.C17ObjUnmarshalUnion"]
+
+# C10: the transcoder accepts what the decoder accepts: the decoder's size caps (and where they are checked) are part of it
+PROPS["C10"]["theorems"] += ["Refmt.Facts.caps_checked_before_allocation"]
+PROPS["C10"]["extra_modules"] = PROPS["C10"].get("extra_modules", []) + ["RefmtProofs.Facts"]
+
+# C13: the functional unmarshaller model is the specification of "fits" (completeness and soundness proved: C13, C13Full); a
+# stream it accepts and the code rejects (or the other way round) is a violation of the property with that stream as the witness
+def rule_unm(body, I, M):
+    r = rule_obj(body, I, M)
+    i, m = I.get("I", ""), M.get("M", "")
+    if r["prop_ok"] and body.startswith("unmarshal") and i != m and i and m:
+        if m.endswith("D") and i.endswith("E"):
+            r["prop_ok"], r["why"] = False, "rejected (%s) a token stream that fits the type: the specification accepts it (%s)" % (i[-12:], m[-12:])
+        elif i.endswith("D") and m.endswith("E"):
+            r["prop_ok"], r["why"] = False, "accepted (%s) a token stream that does not fit the type: the specification rejects it (%s)" % (i[-12:], m[-12:])
+    return r
+RULES["unm"] = rule_unm
+for _s in PROPS["C13"]["streams"]:
+    if _s["name"] == "unmarshal":
+        _s["rule"] = "unm"
